@@ -93,7 +93,7 @@ def check_case(rec, case):
     RD = fa.determinize(R)[0]
     nontrivial = has_choice and len(RD[4]) > 0 and fa.mn_count(RD, RD[0]) > 1
     rec.note_case(case, case['cls'], nontrivial)
-    o = call(adapt.build_nfa, R, case['eps'], case['container'])
+    o = call(adapt.build_nfa, R, case['eps'], case['container'], scramble=case.get('scr'))
     if not o.ok:
         rec.inconc('cannot build NFA')
         return
@@ -172,4 +172,4 @@ def run(rec, rng, tier):
         check_case(rec, rc)
         return
     for case in gen_cases(rec, rng, tier):
-        check_case(rec, case)
+        check_case(rec, common.with_scramble(case))
